@@ -338,7 +338,7 @@ class World:
         out = "?"
         if k == "add_import":
             n0 = len(s.cssRules)
-            kk, v = lib.call(s.add, f'@import "{op["name"]}";')
+            kk, v = lib.call(s.add, op.get("spelling", '@import "{}";').format(op["name"]))
             rules = [r for r in s.cssRules if r.typeString == "IMPORT_RULE"]
             if kk == "ok" and len(s.cssRules) == n0 + 1 and rules:
                 self.stats["probe:import_added_after_parse"] += 1
@@ -391,7 +391,7 @@ def gen_op(r, w, i):
         return None
     k = r.choice(["add_import", "set_encoding", "set_encoding", "add_content", "add_content", "add_content", "restart"])
     if k == "add_import":
-        return {"op": k, "name": r.choice([n for n in cfg["docs"] if n != "root.css"] or ["a.css"])}
+        return {"op": k, "name": r.choice([n for n in cfg["docs"] if n != "root.css"] or ["a.css"]), "spelling": r.choice(['@import "{}";', '@import "{}";', '@IMPORT "{}";', ' @import "{}";', '\n@import url({});', '@Import url("{}") all;', '/*c*/@import "{}";'])}
     if k == "set_encoding":
         return {"op": k, "value": r.choice(["ascii", "ascii", "iso-8859-1", "koi8-r", "utf-8", "utf-16", None, "iso-8859-15", "shift_jis", "euc_jp", "cp932", "gbk", "cp950", "cp500", "utf-7"])}
     if k == "add_content":
